@@ -409,6 +409,10 @@ impl NativeFunctionCompiler for TableAccessRange {
       }
       #[cfg(all(feature = "matrix", feature = "table", feature = "logical_indexing"))]
       (Value::Table(source), [Value::MatrixBool(Matrix::DVector(ix))])  => {
+        // a logical index selects rows one to one: it must have one flag per row
+        if ix.borrow().len() != source.borrow().rows {
+          return Err(MechError::new(DimensionMismatch { dims: vec![ix.borrow().len(), source.borrow().rows] }, None).with_compiler_loc());
+        }
         let out_table = source.borrow().empty_table(ix.borrow().len());
         Ok(Box::new(TableAccessRangeBool{source: source.clone(), ix: ix.clone(), out: Ref::new(out_table) }))
       }
@@ -428,6 +432,9 @@ impl NativeFunctionCompiler for TableAccessRange {
         let src_ref_brrw = src_ref.borrow();
         match &*src_ref_brrw {
           Value::Table(source) => {
+            if ix.borrow().len() != source.borrow().rows {
+              return Err(MechError::new(DimensionMismatch { dims: vec![ix.borrow().len(), source.borrow().rows] }, None).with_compiler_loc());
+            }
             let out_table = source.borrow().empty_table(ix.borrow().len());
             Ok(Box::new(TableAccessRangeBool{source: source.clone(), ix: ix.clone(), out: Ref::new(out_table) }))
           }
